@@ -27,6 +27,12 @@ type T1 struct {
 	G int    `valid:"to=1~3" b:"ge=7|b-G"`
 }
 
+type U1 struct {
+	Name   string `valid:"required|need-name"`
+	Remark string
+	Note   string
+}
+
 type T2 struct {
 	Tel  string `valid:"phone"`
 	Code string `valid:"gfn,le=3"`
@@ -118,6 +124,12 @@ func callMenu() []callT {
 			func(t int) string {
 				return `valid "` + caseVariant(salt*3+t) + `" is not exist, You can call SetValidFn`
 			}},
+		// one type, validated by its tags alone and with a per-call rule for a field that carries no tag
+		{"Struct(U1)", func(t int) []interface{} { return []interface{}{&U1{Name: "n", Remark: ""}} },
+			func(a []interface{}) string { return errText(valid.Struct(a[0])) }, nil},
+		{"Struct(U1, rule for the untagged field)", func(t int) []interface{} {
+			return []interface{}{&U1{Name: "", Remark: ""}, valid.RM{"Remark": fmt.Sprintf("required|need-remark-%d", t)}}
+		}, func(a []interface{}) string { return errText(valid.Struct(a[0], a[1].(valid.RM))) }, nil},
 		// date/time rules with separators of their own next to one that relies on the defaults
 		{"Var(datetime custom separators)", func(t int) []interface{} {
 			return []interface{}{"2021/09/28 10.30.00", []string{"datetime='/, ,.'", fmt.Sprintf("le=%d", 5+t)}}
@@ -544,8 +556,31 @@ func run(c *runner.Ctx) {
 		}
 		return out
 	}
+	// quick tier, two calls per thread: programs over the calls that share struct types and the type cache (the whole
+	// alphabet on the thorough tier)
+	core := map[int]bool{}
+	for i, cl := range menu {
+		if strings.HasPrefix(cl.name, "Struct") || strings.HasPrefix(cl.name, "ValidateStruct") {
+			core[i] = true
+		}
+	}
 	for _, pl := range plans {
 		ps := progsOf(pl.callsPer)
+		if pl.callsPer >= 2 && !c.Thorough() {
+			var keep [][]int
+			for _, p := range ps {
+				ok := true
+				for _, i := range p {
+					if !core[i] {
+						ok = false
+					}
+				}
+				if ok {
+					keep = append(keep, p)
+				}
+			}
+			ps = keep
+		}
 		for _, cf := range pl.cfgs {
 			c.Space(fmt.Sprintf("%s%s %s", pfx, pl.name, cf.name))
 			var rec func(cur [][]int, from int)
@@ -572,7 +607,7 @@ func main() {
 	runner.Main(runner.Config{
 		Property:  "C11",
 		Technique: "stateless model checking of concurrent validation calls under a controlled scheduler with sync.Pool answers as choice points; solo-result oracle + Go race detector on every explored schedule",
-		Rule: "case = one harness (cache LRU(512)|LRU(1), cold|pre-warmed; 2-4 threads x 1-2 calls over a 13-call alphabet (incl. a rule name in a spelling no earlier execution used): Struct / ValidateStruct(tag b) / StructForFn / StructForFns / Struct(slice, groups, global fn) / " +
+		Rule: "case = one harness (cache LRU(512)|LRU(1), cold|pre-warmed; 2-4 threads x 1-2 calls over a 15-call alphabet (incl. a rule name in a spelling no earlier execution used): Struct / ValidateStruct(tag b) / StructForFn / StructForFns / Struct(slice, groups, global fn) / " +
 			"Var with a regex pattern new in every execution / Var with quoted rules / Map / Url / Struct on a struct type new in every execution); every schedule within the preemption+deviation bound is executed on the real code; " +
 			"per call: result = solo result, arguments unmodified; no panic/deadlock; race build: no race report; transitions = scheduling steps; non-trivial = harnesses in which a thread received a pooled object last used by another thread",
 		Assumptions: []string{"sequential consistency for race-free executions; race freedom checked by the race detector per schedule (happens-before edges inside the standard library's own pools are real and may hide a race: false negatives only)",
